@@ -11,10 +11,14 @@ def hexVal (c : Char) : Nat :=
 
 def hexNat (s : String) : Nat := s.foldl (fun a c => a * 16 + hexVal c) 0
 
-def hexBytesAux : List Char → Bytes
-  | a :: b :: r => (hexVal a * 16 + hexVal b) :: hexBytesAux r
-  | _ => []
-def hexBytes (s : String) : Bytes := if s == "-" then [] else hexBytesAux s.toList
+/-- two hex digits per byte; single pass, accumulates reversed -/
+def hexBytes (s : String) : Bytes :=
+  if s == "-" then [] else
+    let (acc, _) := s.foldl (fun (st : List Nat × Option Nat) c =>
+      match st.2 with
+      | none => (st.1, some (hexVal c))
+      | some hi => ((hi * 16 + hexVal c) :: st.1, none)) ([], none)
+    acc.reverse
 
 def hexDigit (n : Nat) : Char := "0123456789abcdef".toList.getD n '0'
 def showHex (bs : Bytes) : String :=
